@@ -2337,6 +2337,38 @@ def m_reorder_bases(rng, spec, feats):
     return 'reorder_bases'
 
 
+def _plain_type(rng, spec, mod):
+    """a fresh object type without pointers (a mixin): can be combined with any other base without conflicts"""
+    t = {'mod': mod, 'name': _fresh(rng, TYPE_NAMES, _all_names(spec)), 'abstract': False,
+         'bases': [], 'props': [], 'links': [], 'constraints': [], 'indexes': [], 'anns': []}
+    spec.data['types'].append(t)
+    return _q(t)
+
+
+def m_rebase_multi(rng, spec, feats):
+    """multi-group rebase: >= 2 NEW bases (fresh pointer-less types created by the same step) inserted at
+    DIFFERENT positions among the retained bases -> several `EXTENDING x BEFORE y` groups (+ a LAST group)"""
+    c = [t for t in spec.data['types'] if len(t['bases']) >= 2]
+    if not c:
+        return None
+    t = rng.choice(c)
+    slots = sorted(rng.sample(range(len(t['bases']) + 1), rng.randint(2, min(3, len(t['bases']) + 1))), reverse=True)
+    for sl in slots:
+        t['bases'][sl:sl] = [_plain_type(rng, spec, t['mod']) for _ in range(rng.choice([1, 1, 2]))]
+    return f'rebase_multi:{len(slots)}groups'
+
+
+def m_drop_adjacent_bases(rng, spec, feats):
+    """drop two bases that are ADJACENT in the base list in one step"""
+    c = [t for t in spec.data['types'] if len(t['bases']) >= 2]
+    if not c:
+        return None
+    t = rng.choice(c)
+    i = rng.randrange(len(t['bases']) - 1)
+    del t['bases'][i:i + 2]
+    return 'drop_adjacent_bases'
+
+
 def m_toggle_abstract(rng, spec, feats):
     if not spec.data['types']:
         return None
@@ -3063,6 +3095,9 @@ _MUT_TABLE = (
     ('drop_base', m_drop_base, 2, False),
     ('change_base', m_change_base, 2, False),
     ('reorder_bases', m_reorder_bases, 1, False),
+    # weight 0: drawn only when requested through `kinds=` (keeps the default random stream of other packages unchanged)
+    ('rebase_multi', m_rebase_multi, 0, False),
+    ('drop_adjacent_bases', m_drop_adjacent_bases, 0, False),
     ('toggle_abstract', m_toggle_abstract, 2, False),
     ('retype_prop', m_retype_prop, 2, False),
     ('retype_prop_hard', m_retype_prop_hard, 1, True),
@@ -3139,7 +3174,7 @@ def mutate(rng, spec: Spec, n: int = 1, kinds=None, features=None, hard_weight: 
     table = [m for m in _MUT_TABLE if kinds is None or m[0] in kinds]
     if kinds is not None and set(kinds) - set(MUTATIONS):
         raise ValueError(f'unknown mutation kinds: {sorted(set(kinds) - set(MUTATIONS))}')
-    weights = [m[2] * (hard_weight if m[3] else 1.0) for m in table]
+    weights = [(m[2] or (1 if kinds is not None else 0)) * (hard_weight if m[3] else 1.0) for m in table]
     cur = spec.copy()
     tags = []
     for _ in range(n):
